@@ -110,7 +110,13 @@ class StmtMixin:
                         continue
                     return None         # different values of conflicting static types: keep the paths apart
                 srcs = [v.src for v in vals]
-                out.env[nm] = V(ite([v.t for v in vals]), vals[0].ty if len(tys) == 1 else None,
+                mty = vals[0].ty if len(tys) == 1 else None
+                if mty is None and None not in tys and len({base_type(t) for t in tys}) == 1 and base_type(vals[0].ty) in self.reg.classes:
+                    # X on one branch, Optional[X] on another: the merged value is an Optional[X]
+                    plain = sorted(t[4:] if t.startswith("opt:") else t for t in tys)
+                    if len(set(plain)) == 1:
+                        mty = ("opt:" + plain[0]) if any(t.startswith("opt:") for t in tys) else plain[0]
+                out.env[nm] = V(ite([v.t for v in vals]), mty,
                                 src=srcs[0] if all(x is srcs[0] for x in srcs) else None)
             elif all(v is vals[0] for v in vals):
                 out.env[nm] = vals[0]
@@ -345,7 +351,11 @@ class StmtMixin:
                 ft = self.reg.field_type(ty, target.attr)
                 if ft and not self.spec_depth:
                     tmp = State(); tmp.heap = s2.heap
-                    self.assume_type(tmp, V(val.t, ft))
+                    self._no_elem_typing = True       # (the element classes of a container are assumed on reads only: DESIGN 11)
+                    try:
+                        self.assume_type(tmp, V(val.t, ft))
+                    finally:
+                        self._no_elem_typing = False
                     if tmp.pc:
                         self.oblige(f"type-safety:field {ty}.{target.attr}: {ft}@L{lineno}", "type-safety", z3.And(*tmp.pc), s2, lineno)
                 if target.attr in self.track_writes and not self.spec_depth:
@@ -797,6 +807,12 @@ class StmtMixin:
         if it.src is not None and base_type(it.src.ty) == "dict" and Val.is_RefV(it.src.t) is not None:
             # instance of the representation fact of dict_link at the current index: the enumerated key is a member
             sh.assume(z3.Select(st0.read("$dhas", vr(it.src.t)), self.dkeys(st0, it.src)[i]))
+        try:
+            cur = it.item(i)
+            if isinstance(cur, V) and z3.is_app(cur.t) and cur.t.decl().kind() == z3.Z3_OP_SEQ_NTH and cur.t.arg(0).decl().name() in self.seq_lemmas:
+                sh.assume(self.seq_lemmas[cur.t.arg(0).decl().name()](i - 1, i))
+        except z3.Z3Exception:
+            pass
         sh.trace.append(Effect("loop:" + key, [], s.lineno, None, inner=sorted(loop_effects)))
         self.loop_unchanged(sh, st0, it)
         for e, f in inv_terms(sh, i):
@@ -813,6 +829,9 @@ class StmtMixin:
                     if clause_active(e, self.prop):
                         view = b.st.copy(); view.trace = b.st.trace[ntrace:]     # effects of this iteration only
                         binds = {k: v for k, v in b.st.env.items() if isinstance(v, V)}
+                        binds["_i"] = V(IntV(i), "int")
+                        if it.src is not None:
+                            binds["_seq"] = it.src
                         self._iter_start = iter_start
                         self.oblige(f"loop-body[{key}]: {clause_text(e)}", "inv-pres", self.spec(view, self.entry_state or st0, clause_text(e), binds), b.st, s.lineno)
             elif b.kind == "break" and lc.get("no_break"):
